@@ -5,6 +5,8 @@
 use bump_scope::settings::BumpSettings;
 use vh::arena::install_hooks;
 use vh::coll::hist::{CollParams, FAMS, Fam, HistOut, run_history};
+use vh::coll::split::run_split_history;
+use vh::coll::strs::run_str_history;
 use vh::monalloc::{FailPlan, MRc, MZ};
 use vh::out::{Args, Report};
 use vh::rng::mix;
@@ -31,6 +33,19 @@ macro_rules! runners {
 }
 
 static RUNNERS: &[(&str, [Runner; 4])] = runners!(u8, u32, [u8; 3], u64, (), Tr, TrZ);
+
+type SplitRunner = fn(&mut Report, &CollParams, u64, u64, FailPlan);
+macro_rules! split_runners {
+    ($($e:ty),*) => {
+        &[ $(
+            run_split_history::<MRc, SU1, $e> as SplitRunner,
+            run_split_history::<MZ, SD1, $e> as SplitRunner,
+            run_split_history::<MRc, SU8, $e> as SplitRunner,
+            run_split_history::<MRc, SD16, $e> as SplitRunner,
+        )* ]
+    };
+}
+static SPLIT_RUNNERS: &[SplitRunner] = split_runners!(u8, u32, [u8; 3], Tr, TrZ);
 
 fn main() {
     let a = Args::parse();
@@ -66,6 +81,23 @@ fn main() {
             }
         }
         let hseed = mix(&[seed, h, 0xC011]);
+        if prop == "C09" || (prop == "C07" && h % 4 == 3) {
+            type SR = fn(&mut Report, &CollParams, u64, u64, FailPlan) -> u64;
+            let runs: [SR; 4] = [run_str_history::<MRc, SU1>, run_str_history::<MZ, SD1>, run_str_history::<MRc, SU8>, run_str_history::<MRc, SD16>];
+            let run = runs[((h / 5) % 4) as usize];
+            let n = run(&mut rep, &p, h, hseed, FailPlan::default());
+            if prop == "C07" {
+                for k in 0..n.saturating_sub(1).min(8) {
+                    run(&mut rep, &p, h, hseed, FailPlan { fail_calls: vec![k], ..Default::default() });
+                    enum_runs += 1;
+                }
+            }
+            continue;
+        }
+        if prop == "C16" {
+            SPLIT_RUNNERS[(h as usize) % SPLIT_RUNNERS.len()](&mut rep, &p, h, hseed, FailPlan::default());
+            continue;
+        }
         let e = elems[(h as usize) % elems.len()];
         let fam = fams[((h as usize) / elems.len()) % fams.len()];
         let run = RUNNERS[e].1[((h as usize) / (elems.len() * fams.len())) % 4];
